@@ -5,6 +5,8 @@ package checks
 // this unit with -race and GORACE=halt_on_error=1, and reads the report).
 
 import (
+	"io"
+	"sync"
 	"testing"
 	"time"
 
@@ -22,7 +24,9 @@ func TestC14Race(t *testing.T) {
 		if err != nil {
 			t.Skip("setup failed")
 		}
+		stopStats := statsReader(w, rapid.Bool().Draw(t, "statsreader"))
 		run := w.runConcurrent(cc.Progs, cc.YieldSeed, cc.ViaRPC, 30*time.Second, cc.Pause)
+		stopStats()
 		if run.Slow {
 			St.Class("call_too_slow_for_the_harness_not_judged")
 			t.Skip("harness too slow")
@@ -96,7 +100,9 @@ func TestC14BigSet(t *testing.T) {
 		if rapid.Bool().Draw(t, "yields") {
 			yield = rapid.Uint64Range(1, 1<<62).Draw(t, "yieldseed")
 		}
+		stopStats := statsReader(w, rapid.Bool().Draw(t, "statsreader"))
 		run := w.runConcurrent(progs, yield, false, 30*time.Second, nil)
+		stopStats()
 		if run.Slow || run.Hung {
 			St.Class("run_not_judged")
 			t.Skip("not judged here (C06's subject)")
@@ -106,4 +112,33 @@ func TestC14BigSet(t *testing.T) {
 		St.NT(Hash("bigset", describeHistory(run.Ops)))
 		St.Class("program_with_a_working_set_larger_than_the_inode_cache")
 	})
+}
+
+// statsReader: what cmd/go-nfsd does on a signal or a timer while requests are being served - the per-procedure
+// statistics are written out and reset by another goroutine.  Returns the function that stops it.
+func statsReader(w *cWorld, on bool) func() {
+	if !on {
+		return func() {}
+	}
+	St.Class("program_with_the_statistics_read_and_reset_meanwhile")
+	n := w.S.N
+	stop := make(chan struct{})
+	var wg sync.WaitGroup
+	wg.Add(1)
+	go func() {
+		defer wg.Done()
+		for i := 0; ; i++ {
+			select {
+			case <-stop:
+				return
+			default:
+			}
+			n.WriteOpStats(io.Discard)
+			if i%3 == 2 {
+				n.ResetOpStats()
+			}
+			time.Sleep(200 * time.Microsecond)
+		}
+	}()
+	return func() { close(stop); wg.Wait() }
 }
